@@ -147,6 +147,33 @@ Theorem C14_unauthorized_is_error : forall H zcomp zdecomp budget cu c s ib auth
 Proof. exact transport_get_unauthorized. Qed.
 Print Assumptions C14_unauthorized_is_error.
 
+(* A chunk server whose upstream store answers or FAILS per call (any store: local, remote,
+   failover group ...): HasChunk through the server is true / false / an error exactly as the
+   upstream's answer was yes / no / a failure -- a failure is never reported as "false" ... *)
+Theorem C14_upstream_head_truthful : forall budget (u : has_result),
+  has_chunk budget (const_script (handler_head u)) =
+  match u with
+  | HasYes => (HasTrue, 1)
+  | HasNo => (HasFalse, 1)
+  | HasFail => (HasErr, N.max 1 budget)
+  end.
+Proof. exact upstream_head. Qed.
+Print Assumptions C14_upstream_head_truthful.
+
+(* ... GetChunk reports ChunkMissing for "missing" and an error for a failure ... *)
+Theorem C14_upstream_get_truthful : forall H zcomp zdecomp budget unc skip i (u : get_result),
+  u = GMissing \/ u = GFail ->
+  get_chunk H zdecomp budget unc skip i (const_script (handler_get zcomp zdecomp (opt_converters unc) u)) =
+  match u with GMissing => (CMissing, 1) | _ => (CErr, N.max 1 budget) end.
+Proof. exact upstream_get_not_present. Qed.
+Print Assumptions C14_upstream_get_truthful.
+
+(* ... and a failing upstream StoreChunk (answered 500) makes the client's StoreChunk fail *)
+Theorem C14_upstream_put_failure : forall budget,
+  store_object budget (const_script (resp 500 [])) = (false, N.max 1 budget).
+Proof. exact upstream_put_failure. Qed.
+Print Assumptions C14_upstream_put_failure.
+
 (* HEAD: true iff the upstream store has the chunk *)
 Theorem C14_has_chunk_truthful : forall H zcomp zdecomp budget c s ib auth,
   wf_bytes ib -> length ib = 32%nat -> authorized c auth ->
